@@ -2,6 +2,7 @@ package main
 
 import (
 	"bufio"
+	"context"
 	"encoding/json"
 	"flag"
 	"fmt"
@@ -29,6 +30,8 @@ func cmdStress(args []string) int {
 	nops := fs.Int("ops", 50, "operations per client")
 	nkeys := fs.Int("keys", 3, "keys")
 	rounds := fs.Int("rounds", 3, "independent rounds (fresh backend each)")
+	compactors := fs.Int("compactors", 0, "goroutines issuing compaction requests")
+	readers := fs.Int("readers", 0, "goroutines issuing point and range reads at past revisions")
 	fs.Parse(args)
 	kb.QuietLogs()
 	backend.VerifSetRetryIntervals(0, time.Millisecond)
@@ -128,7 +131,88 @@ func cmdStress(args []string) int {
 				}
 			}(c)
 		}
+		stop := make(chan struct{})
+		var bg sync.WaitGroup
+		for c := 0; c < *compactors; c++ {
+			bg.Add(1)
+			go func(c int) {
+				defer bg.Done()
+				name := fmt.Sprintf("k%d", c+1)
+				env.Sched.Register(name)
+				rnd := rand.New(rand.NewSource(*seed*3000 + int64(round*100+c)))
+				for {
+					select {
+					case <-stop:
+						return
+					default:
+					}
+					cur := env.B.GetCurrentRevision()
+					req := cur
+					if d := uint64(rnd.Intn(12)); cur > base+d {
+						req = cur - d
+					}
+					if rnd.Intn(8) == 0 {
+						req = 0
+					}
+					minunc := backend.VerifRetryMinRevision(env.B)
+					env.Rec.Log(gate.Event{"e": "CInvoke", "p": name, "req": gate.Clip(req)})
+					resp, err := env.B.Compact(context.Background(), req)
+					hdr := uint64(0)
+					if err == nil {
+						hdr = resp.Header.GetRevision()
+					}
+					env.Rec.Log(gate.Event{"e": "CReturn", "p": name, "req": gate.Clip(req), "hdr": gate.Clip(hdr), "err": errStr(err), "minunc": gate.Clip(minunc)})
+					time.Sleep(time.Duration(rnd.Intn(300)) * time.Microsecond)
+				}
+			}(c)
+		}
+		for c := 0; c < *readers; c++ {
+			bg.Add(1)
+			go func(c int) {
+				defer bg.Done()
+				name := fmt.Sprintf("r%d", c+1)
+				env.Sched.Register(name)
+				rnd := rand.New(rand.NewSource(*seed*5000 + int64(round*100+c)))
+				bs := boundsFor(env, *nkeys)
+				rd := &reader{env: env, pname: name}
+				for {
+					select {
+					case <-stop:
+						return
+					default:
+					}
+					cur := env.B.GetCurrentRevision()
+					fl := env.CompactRecord()
+					lo := fl
+					if lo < base+1 {
+						lo = base + 1
+					}
+					rev := uint64(0)
+					if cur >= lo && rnd.Intn(4) != 0 {
+						rev = lo + uint64(rnd.Intn(int(cur-lo+1)))
+					}
+					if fl > base+1 && rnd.Intn(10) == 0 {
+						rev = fl - 1 // below the floor: must be refused by range reads
+					}
+					switch rnd.Intn(3) {
+					case 0:
+						rd.get(1+rnd.Intn(*nkeys), rev)
+					default:
+						i, j := rnd.Intn(len(bs)), rnd.Intn(len(bs))
+						if bs[i].raw > bs[j].raw {
+							i, j = j, i
+						}
+						if bs[i].raw == bs[j].raw {
+							continue
+						}
+						rd.list(bs[i], bs[j], rev, int64(rnd.Intn(*nkeys+2)), -1)
+					}
+				}
+			}(c)
+		}
 		wg.Wait()
+		close(stop)
+		bg.Wait()
 		// wait for the sequencer to catch up (bounded)
 		last := uint64(0)
 		stable := 0
